@@ -47,7 +47,7 @@ def run_guid(chk, binp=None, replay_obs=None):
         extra = [2000 if chk.quick else 100000, chk.seed]
     obs = chk.path("guid_obs.ndjson")
     core.run_bin(binp, ["guid-obs", cases, obs] + extra)
-    out, lines = rm.validate(chk, "GuidCheck", obs, shards=6)
+    out, lines = rm.validate(chk, "GuidCheck", obs, shards=3 if chk.quick else 12)
     classify(chk, out["MISMATCH"], lines)
     objs = [json.loads(x) for x in lines]
     calls = sum(len(o["paths"]) for o in objs)
